@@ -64,7 +64,7 @@ static void c07_run(vf_case *c)
         int nws = 0, nshort = 0;
         for (int pass = 0; pass < 2 && c->nmore < 3; pass++) {
             int f = pass == 0 ? 30 : rng_int(r, 1, 3); vf_ienv_set(6, f);
-            size_t len = G; int failed = 0;
+            size_t len = G, last_ok = 0, first_bad = 0; int failed = 0;
             for (int t = 0; t < 14 && !failed && c->nmore < 3; t++) {
                 int align4 = rng_bool(r, 0.5); void *work = buf0 + (align4 ? 4 : 8) + (16 - ((uintptr_t)buf0 & 15)) % 16;
                 size_t L = len - rng_int(r, 0, 3) * 4;
@@ -77,8 +77,33 @@ static void c07_run(vf_case *c)
                 else { compared++; nws++; check_query(c, P, &R, ilu, "workspace variant"); if (R.stat.expansions > maxexp) maxexp = R.stat.expansions; vf_tag(c, align4 ? "align=4" : "align=8"); }
                 fact_free(&R);
                 if (failed) vf_check_ledger_since(c, "after a reported workspace shortage", "nomem", mark);
+                if (!failed) last_ok = L; else first_bad = L;
                 len = len * 3 / 4;
                 if (len < 64) break;
+            }
+            /* the band just above the smallest sufficient length is where expansions run with reduced growth:
+               bisect to the threshold, then compare a sample of lengths on the 4-byte grid right above it */
+            if (failed && last_ok > first_bad) {
+                size_t lo = first_bad, hi = last_ok;
+                for (int it = 0; it < 24 && hi - lo > 8; it++) {
+                    size_t mid = ((lo + hi) / 2) & ~(size_t)3; void *work = buf0 + 8 + (16 - ((uintptr_t)buf0 & 15)) % 16;
+                    uint64_t mark = vf_ledger_mark(); fact_run R; fact_do(P, &A, &opt, mypc, work, (int_t)mid, ilu, &R);
+                    int bad = R.info > n; if (bad) lo = mid; else hi = mid;
+                    fact_free(&R); if (bad) vf_check_ledger_since(c, "after a reported workspace shortage", "nomem", mark);
+                }
+                int nband = c->tier ? 80 : 30;
+                for (int t = 0; t < nband && c->nmore < 3; t++) {
+                    size_t L = hi + 4 * (size_t)rng_int(r, 0, c->tier ? 1500 : 700); if (L > G) L = G;
+                    int align4 = rng_bool(r, 0.5); void *work = buf0 + (align4 ? 4 : 8) + (16 - ((uintptr_t)buf0 & 15)) % 16;
+                    uint64_t mark = vf_ledger_mark(); fact_run R; fact_do(P, &A, &opt, mypc, work, (int_t)L, ilu, &R);
+                    if (vf_events_count(VF_EV_STACK_OVERLAP) > 0) { vf_viol(c, "workspace-stack-overlap", "workspace %zu bytes (fill %d): stack head passed its tail after a growth", L, f); vf_events_reset(); }
+                    if (R.info > n) { nshort++; fact_free(&R); vf_check_ledger_since(c, "after a reported workspace shortage", "nomem", mark); continue; }
+                    if (R.info != info0) vf_viol(c, "info-depends-on-storage", "workspace %zu bytes just above the minimum (align %d, fill %d): info=%lld, reference info=%lld", L, align4 ? 4 : 8, f, (long long)R.info, (long long)info0);
+                    else if (run_hash(P, &R) != h0) vf_viol(c, "factors-depend-on-storage", "workspace %zu bytes, %zu above the smallest sufficient length (align %d, fill %d, %d expansions): perms/L/U bytes differ from the library-allocation run", L, L - hi, align4 ? 4 : 8, f, R.stat.expansions);
+                    else { compared++; nws++; c->counters[4]++; if (R.stat.expansions > maxexp) maxexp = R.stat.expansions; }
+                    fact_free(&R);
+                }
+                vf_tag(c, "band-above-minimum");
             }
         }
         free(buf0); c->counters[1] += nws; c->counters[2] += nshort; if (nws) vf_tag(c, "mem=workspace");
